@@ -14,6 +14,7 @@ import (
 	"github.com/containerd/nri/pkg/adaptation"
 	"github.com/containerd/nri/pkg/api"
 	"github.com/containerd/nri/pkg/verifhook"
+	"google.golang.org/protobuf/proto"
 	"pgregory.net/rapid"
 
 	"nriverif/ev"
@@ -48,6 +49,9 @@ type CreatorPlan struct {
 	// milliseconds (between the two steps) instead of Hold: a request that takes long.
 	LongAt int `json:"long_at,omitempty"`
 	LongMs int `json:"long_ms,omitempty"`
+	// the creator's first BigN containers carry BigKB KiB of annotations
+	BigKB int `json:"big_kb,omitempty"`
+	BigN  int `json:"big_n,omitempty"`
 }
 
 // PluginPlan is one plugin.
@@ -75,8 +79,14 @@ const (
 
 // C08Case is a plan of concurrent creations and registrations.
 type C08Case struct {
-	Pre       int           `json:"pre"`       // containers in the runtime's store before anything starts
-	Residents []PluginPlan  `json:"residents"` // plugins registered and active before the creators start
+	Pre int `json:"pre"` // containers in the runtime's store before anything starts
+	// PreKB, if not empty, gives the pre-existing containers explicitly (Pre = len): container i
+	// carries PreKB[i] KiB of annotations. Big states make the snapshot exceed ttrpc's 4 MiB
+	// message limit, so that the runtime has to split it. No container is larger than
+	// maxCtrKB, so any 8 consecutive ones fit one message (the sender's floor, see C09).
+	PreKB     []int         `json:"pre_kb,omitempty"`
+	PreDist   string        `json:"pre_dist,omitempty"` // label of the size distribution (histogram only)
+	Residents []PluginPlan  `json:"residents"`          // plugins registered and active before the creators start
 	Creators  []CreatorPlan `json:"creators"`
 	Plugins   []PluginPlan  `json:"plugins"` // plugins registering while the creators run
 	Noise     int           `json:"noise"`   // goroutines issuing pod state-change events outside sync blocks (they contend for the adaptation lock, they create nothing)
@@ -105,6 +115,11 @@ const (
 	// case, no verdict depends on them.
 	extraCap  = 1500
 	extraWall = 1 * time.Second
+	// maxCtrKB bounds one container's annotations: 8 x 450 KiB + a pod stay well below 4 MiB.
+	maxCtrKB = 450
+	// bigCoins: a generated plan has a big (split) state when this many fair coins all come up
+	// heads (1 in 8); such a plan costs a few hundred ms.
+	bigCoins = 3
 	// longCoins: a generated plan has long blocks and a short request timeout when this many
 	// fair coins all come up heads (1 in 16).
 	longCoins = 4
@@ -184,7 +199,51 @@ func genC08(t *rapid.T) C08Case {
 	}
 	// a modest share of plans with long blocks (each costs about a second)
 	// (rapid's integer generators favour small values; fair coins give a dependable share)
-	long := true
+	big := true
+	for i := 0; i < bigCoins; i++ {
+		big = rapid.Bool().Draw(t, "big") && big
+	}
+	if big {
+		small := rapid.IntRange(0, 4)
+		c.PreDist = rapid.SampledFrom([]string{"heavy-head", "uniform", "heavy-tail", "random"}).Draw(t, "pre_dist")
+		switch c.PreDist {
+		case "uniform": // ~128 KiB x 40+
+			n := rapid.IntRange(40, 48).Draw(t, "pre_n")
+			kb := rapid.IntRange(110, 140).Draw(t, "pre_kb")
+			for i := 0; i < n; i++ {
+				c.PreKB = append(c.PreKB, kb)
+			}
+		case "heavy-head", "heavy-tail": // 10 heavy ones, then (or preceded by) small ones
+			nh := rapid.IntRange(10, 12).Draw(t, "pre_heavy")
+			kb := rapid.IntRange(400, maxCtrKB).Draw(t, "pre_kb")
+			ns := rapid.IntRange(8, 30).Draw(t, "pre_small")
+			var heavy, light []int
+			for i := 0; i < nh; i++ {
+				heavy = append(heavy, kb)
+			}
+			for i := 0; i < ns; i++ {
+				light = append(light, small.Draw(t, "kb"))
+			}
+			if c.PreDist == "heavy-head" {
+				c.PreKB = append(heavy, light...)
+			} else {
+				c.PreKB = append(light, heavy...)
+			}
+		default: // runs of heavy and small containers in drawn order
+			n := rapid.IntRange(24, 48).Draw(t, "pre_n")
+			for i := 0; i < n; i++ {
+				c.PreKB = append(c.PreKB, rapid.OneOf(small, rapid.IntRange(100, maxCtrKB), rapid.IntRange(100, maxCtrKB)).Draw(t, "kb"))
+			}
+		}
+		c.Pre = len(c.PreKB)
+		for i := range c.Creators { // some containers created during the registrations are big, too
+			if rapid.Bool().Draw(t, "creator_big") {
+				c.Creators[i].BigKB = rapid.IntRange(64, maxCtrKB).Draw(t, "big_kb")
+				c.Creators[i].BigN = rapid.IntRange(1, 3).Draw(t, "big_n")
+			}
+		}
+	}
+	long := !big // a big state is not combined with a shortened request timeout
 	for i := 0; i < longCoins; i++ {
 		long = rapid.Bool().Draw(t, "long") && long
 	}
@@ -242,6 +301,16 @@ func normalize(c C08Case) C08Case {
 		return v
 	}
 	c.Pre = clamp(c.Pre, 0, 50)
+	if len(c.PreKB) > 0 {
+		if len(c.PreKB) > 64 {
+			c.PreKB = c.PreKB[:64]
+		}
+		kb := make([]int, len(c.PreKB))
+		for i, v := range c.PreKB {
+			kb[i] = clamp(v, 0, maxCtrKB)
+		}
+		c.PreKB, c.Pre = kb, len(kb)
+	}
 	if len(c.Creators) > 16 {
 		c.Creators = c.Creators[:16]
 	}
@@ -263,6 +332,8 @@ func normalize(c C08Case) C08Case {
 		if cp.Unblocks == 1 {
 			cp.Again, cp.Late = 0, false
 		}
+		cp.BigKB = clamp(cp.BigKB, 0, maxCtrKB)
+		cp.BigN = clamp(cp.BigN, 0, 8)
 		cp.LongAt = clamp(cp.LongAt, 0, cp.N)
 		cp.LongMs = clamp(cp.LongMs, 0, 5000)
 		if cp.LongAt == 0 {
@@ -342,6 +413,7 @@ type Reg struct {
 	THandlerX  int64  `json:"t_handler_exit"`
 	TReturn    int64  `json:"t_return"`
 	SnapLen    int    `json:"snap_len"`
+	SnapBytes  int    `json:"snap_bytes"` // proto.Size of the whole state as one SynchronizeRequest
 	HeldEntry  int64  `json:"held_entry"` // harness' count of held sync blocks at these instants
 	HeldSnap   int64  `json:"held_snap"`
 	HeldHdl    int64  `json:"held_handler"`
@@ -538,6 +610,7 @@ func (x *exec) syncFn(ctx context.Context, cb adaptation.SyncCB) error {
 	reg.TSnap = x.now()
 	x.storeMu.Unlock()
 	reg.SnapLen = len(snap)
+	reg.SnapBytes = proto.Size(&api.SynchronizeRequest{Pods: []*api.PodSandbox{x.pod}, Containers: snap})
 
 	t0 := time.Now()
 	_, err := cb(ctx, []*api.PodSandbox{x.pod}, snap)
@@ -816,9 +889,9 @@ func (x *exec) add(c *api.Container) {
 // block of the same goroutine that has been unblocked already and is unblocked once more
 // inside this block (a no-op by the documented contract). It returns the block when the
 // plan wants it unblocked again after the step (atEnd) or inside the next block (late).
-func (x *exec) createOne(creator int, id string, cp CreatorPlan, carry *adaptation.PluginSyncBlock, long bool) (rec Creation, atEnd, late *adaptation.PluginSyncBlock) {
+func (x *exec) createOne(creator int, id string, cp CreatorPlan, carry *adaptation.PluginSyncBlock, long bool, kb int) (rec Creation, atEnd, late *adaptation.PluginSyncBlock) {
 	rec = Creation{ID: id, Creator: creator}
-	ctr := &api.Container{Id: id, PodSandboxId: x.pod.Id, Name: id}
+	ctr := newCtr(id, x.pod.Id, kb)
 	rec.TReq = x.now()
 	b := x.r.A.BlockPluginSync()
 	rec.TAcq = x.now()
@@ -889,6 +962,24 @@ func (x *exec) createOne(creator int, id string, cp CreatorPlan, carry *adaptati
 	return rec, atEnd, late
 }
 
+// padding is shared by all padded containers (strings are immutable: no copies are made).
+var padding = strings.Repeat("x", maxCtrKB<<10)
+
+func newCtr(id, pod string, kb int) *api.Container {
+	c := &api.Container{Id: id, PodSandboxId: pod, Name: id}
+	if kb > 0 {
+		c.Annotations = map[string]string{"verif/pad": padding[:min(kb, maxCtrKB)<<10]}
+	}
+	return c
+}
+
+func bigKB(cp CreatorPlan, k int) int {
+	if k < cp.BigN {
+		return cp.BigKB
+	}
+	return 0
+}
+
 func (x *exec) launchAt(n int64) {
 	for _, pl := range x.plugs {
 		if !pl.resident && int64(pl.plan.After) <= n && pl.launched.CompareAndSwap(false, true) {
@@ -902,7 +993,7 @@ func (x *exec) creator(i int, cp CreatorPlan) {
 	k := 0
 	var carry *adaptation.PluginSyncBlock
 	one := func() {
-		rec, atEnd, late := x.createOne(i, fmt.Sprintf("c%d-%d", i, k), cp, carry, cp.LongAt > 0 && k+1 == cp.LongAt)
+		rec, atEnd, late := x.createOne(i, fmt.Sprintf("c%d-%d", i, k), cp, carry, cp.LongAt > 0 && k+1 == cp.LongAt, bigKB(cp, k))
 		carry = late
 		x.crecs[i] = append(x.crecs[i], rec)
 		k++
@@ -973,7 +1064,11 @@ func execute(c C08Case, attempt int) result {
 	x.r = r
 	for i := 0; i < c.Pre; i++ {
 		id := fmt.Sprintf("pre-%d", i)
-		x.store = append(x.store, &api.Container{Id: id, PodSandboxId: x.pod.Id, Name: id})
+		kb := 0
+		if i < len(c.PreKB) {
+			kb = c.PreKB[i]
+		}
+		x.store = append(x.store, newCtr(id, x.pod.Id, kb))
 	}
 	for i, pp := range c.Residents {
 		x.plugs = append(x.plugs, x.newPlug(i, pp, true))
@@ -1174,7 +1269,7 @@ func execute(c C08Case, attempt int) result {
 
 	// --- a final creation, after every registration completed: active plugins must get it ---
 	if timeFail == "" && !stuck {
-		rec, _, _ := x.createOne(-1, "final", CreatorPlan{AddFirst: true, Hold: -1, Unblocks: 1}, nil, false)
+		rec, _, _ := x.createOne(-1, "final", CreatorPlan{AddFirst: true, Hold: -1, Unblocks: 1}, nil, false, 0)
 		x.crecs = append(x.crecs, []Creation{rec})
 	}
 
@@ -1341,6 +1436,22 @@ func execute(c C08Case, attempt int) result {
 			if behind {
 				classes = append(classes, "leave:pending,behind-block")
 			}
+		}
+	}
+	if len(c.PreKB) > 0 {
+		dist := c.PreDist
+		if dist == "" {
+			dist = "explicit"
+		}
+		classes = append(classes, "state:big", "state:"+dist)
+		split := false
+		for _, rg := range regs {
+			if rg.Ord >= nRes && rg.SnapBytes > 4<<20 && rg.Err == "" {
+				split = true
+			}
+		}
+		if split { // a planned registration was synchronized with a state that does not fit one message
+			classes = append(classes, "state:split", "state:split,"+dist)
 		}
 	}
 	if c.ReqTimeoutMs > 0 {
@@ -1537,7 +1648,7 @@ func runC08(c C08Case) ev.Outcome {
 func TestProp_C08(t *testing.T) { ev.Run(t, "C08", genC08, runC08) }
 
 // sweepCases are directed plans: registrations that stay pending behind long sync blocks
-// for 2-3 times the (shortened) plugin request timeout.
+// for 2-3 times the (shortened) plugin request timeout, and states that must be split.
 func sweepCases() []C08Case {
 	// After is clamped to the sum of the unconditional creations: in effect only InLong counts
 	pl := func(idx int) PluginPlan { return PluginPlan{Idx: idx, After: 1 << 20, CreateUs: 5, InLong: true} }
@@ -1551,6 +1662,19 @@ func sweepCases() []C08Case {
 		}
 		return out
 	}
+	var heavyHead, uniform []int
+	for i := 0; i < 20; i++ {
+		if i < 10 {
+			heavyHead = append(heavyHead, maxCtrKB)
+		} else {
+			heavyHead = append(heavyHead, 1)
+		}
+	}
+	for i := 0; i < 44; i++ {
+		uniform = append(uniform, 128)
+	}
+	bigCr := cr(false, 4, 0, 0)
+	bigCr.BigKB, bigCr.BigN = 300, 2
 	multi := cr(true, 4, 2, 800)
 	multi.Unblocks, multi.Again, multi.Late = 3, 0, true
 	return []C08Case{
@@ -1564,6 +1688,11 @@ func sweepCases() []C08Case {
 			Plugins: []PluginPlan{pl(50)}, Noise: 2, Delays: d(1), ReqTimeoutMs: 400},
 		// long block of a creator that unblocks three times, the last time inside its next block
 		{Pre: 3, Creators: []CreatorPlan{multi, cr(false, 6, 0, 0)}, Plugins: []PluginPlan{pl(7), pl(8)}, Delays: d(2), ReqTimeoutMs: 350},
+		// big states that must be split: 10 x 450 KiB at the head of 20 containers, and 44 x 128 KiB
+		{PreKB: heavyHead, PreDist: "heavy-head", Residents: []PluginPlan{{Idx: 9}}, Creators: []CreatorPlan{cr(true, 6, 0, 0), bigCr},
+			Plugins: []PluginPlan{{Idx: 30, After: 2}, {Idx: 2, After: 9}}, Noise: 1, Delays: d(3)},
+		{PreKB: uniform, PreDist: "uniform", Creators: []CreatorPlan{cr(false, 8, 0, 0), cr(true, 5, 0, 0)},
+			Plugins: []PluginPlan{{Idx: 11, After: 3}}, Delays: d(1)},
 		// the default-sized timeout of the library (2 s) with a block of 2.5 s
 		{Creators: []CreatorPlan{cr(true, 2, 1, 2500)}, Plugins: []PluginPlan{pl(1)}, Delays: d(1), ReqTimeoutMs: 2000},
 	}
